@@ -374,6 +374,39 @@ def ob_reactions_dynamic(algo):
     return Verdict(DISCHARGED, backend="native run", sub=n)
 
 
+def ob_reshape_coincidence():
+    """a mesh whose number of elements equals its number of nodes (a closed band of triangles: 2k nodes, 2k elements): nodal values of an element-wise result are
+    the values extrapolated to the nodes, not the element array handed back unchanged."""
+    from EasyFEA import Models, Simulations, ElemType
+    from EasyFEA.FEM._mesh import Mesh
+    from EasyFEA.FEM._group_elem import GroupElemFactory
+    k = 6
+    ang = np.linspace(0, 2 * np.pi, k, endpoint=False)
+    inner = np.c_[np.cos(ang), np.sin(ang), 0 * ang]
+    co = np.vstack([inner, 2 * inner])
+    tri = []
+    for i in range(k):
+        j = (i + 1) % k
+        tri += [[i, k + i, k + j], [i, k + j, j]]
+    mesh = Mesh({ElemType.TRI3: GroupElemFactory.Create(ElemType.TRI3, np.array(tri), co)})
+    if mesh.Nn != mesh.Ne:
+        raise Unsupported("the band does not have as many elements as nodes")
+    s_ = Simulations.Elastic(mesh, Models.Elastic.Isotropic(2, E=3.0, v=0.25, planeStress=True))
+    rng = np.random.default_rng(0)
+    s_._Set_solutions(s_.problemType, 1e-3 * rng.normal(size=mesh.Nn * 2))
+    n = 0
+    for name in ("Sxx", "Svm", "Exy"):
+        Se = np.asarray(s_.Result(name, nodeValues=False))
+        Sn = np.asarray(s_.Result(name, nodeValues=True))
+        ref = np.asarray(mesh.Get_Node_Values(Se.reshape(mesh.Ne, -1))).ravel()
+        n += 1
+        e = float(np.abs(Sn.ravel() - ref).max() / np.abs(ref).max())
+        if e > 1e-10:
+            raise Refuted(f"mesh with Nn == Ne == {mesh.Nn}: Result('{name}', nodeValues=True) is {'the element array itself' if np.array_equal(Sn, Se) else 'wrong'}: it differs from the element values "
+                          f"brought to the nodes by {e:.3e} (relative)", cex=dict(Nn=int(mesh.Nn), Ne=int(mesh.Ne), result=name), signature="reshape:Nn==Ne", replay=dict(confirmed=True, rel_err=e))
+    return Verdict(DISCHARGED, backend="native run", sub=n)
+
+
 def ob_result_other(sim, seed):
     """generic clauses for the other simulation types: every advertised name is served for an arbitrary state; vector results and their components agree."""
     from .C15 import _mk
@@ -517,6 +550,8 @@ def build(tier, seed):
     for algo in ("newmark", "hht", "midpoint"):
         obs.append(Ob(f"C16.reactions.dynamic.{algo}", ob_reactions_dynamic, (algo,), "X", ("EasyFEA/Simulations/_simu.py::_Simu.Calc_Reaction",), bound="one damped 2-D patch, 5 steps",
                       clause="reactions reported on the constrained boundary are the rows of K u + C v + M a there (damped dynamics)", timeout=300))
+    obs.append(Ob("C16.reshape.coincidence", ob_reshape_coincidence, (), "X", ("EasyFEA/Simulations/_simu.py::_Simu.Results_Reshape_values",), bound="one closed band of 12 triangles on 12 nodes",
+                  clause="nodal form of an element-wise result on a mesh with as many elements as nodes", timeout=120))
     obs.append(Ob("canary.indices", ob_indices, (2, True), "P", expect=REFUTED, timeout=300))
     functions = {"__Result_in_Strain_or_Stress_field": extract.get(MU, "__Result_in_Strain_or_Stress_field").describe(), "Elastic.Result": extract.get(SE, "Elastic.Result").describe(),
                  "Elastic._Calc_Psi_Elas": extract.get(SE, "Elastic._Calc_Psi_Elas").describe()}
